@@ -266,6 +266,14 @@ def r03_3(ctx: Ctx):
                     continue
                 if id(cs.node) in inside_lambda:
                     continue  # the objective handed to the optimiser (checked by _objective_forwards_to_wrapper)
+                def only_builds_closure(t):
+                    """every evaluating call of t sits inside a lambda / nested function that t returns: calling t evaluates nothing"""
+                    deferred = {id(x) for d in ast.walk(t.node) if (isinstance(d, ast.Lambda) or (isinstance(d, ast.FunctionDef) and d is not t.node)) for x in ast.walk(d)}
+                    evs = [c2 for c2 in ctx.res.callsites(t) if isinstance(c2.node, ast.Call) and (any(ctx.eff.has(t2, "EVAL") for t2 in c2.targets) or (isinstance(c2.node.func, ast.Name) and c2.node.func.id in t.params()))]
+                    return bool(deferred) and all(id(c2.node) in deferred for c2 in evs)
+
+                if cs.targets and all(only_builds_closure(t) for t in cs.targets):
+                    continue  # builds the objective (a closure); what the closure does is R03.2's question
                 if any(ctx.eff.has(t, "EVAL") for t in cs.targets):
                     bad.append((cs.node, f"`{norm(cs.node)[:80]}` in {f.short} evaluates the objective outside the optimiser run whose nfev feeds the accumulator: that call is made but never reported"))
         for n, why in bad:
@@ -450,6 +458,14 @@ def _eval_under(e: ast.AST, defs, param, present: bool, depth=0):
         if pol:
             taken = e.body if (pol == 1) == present else e.orelse
             return _eval_under(taken, defs, param, present, depth + 1)
+        # `<local> is None` / `is not None` where the local's value under the assumption is a constructed object or None
+        t = e.test
+        if isinstance(t, ast.Compare) and len(t.ops) == 1 and isinstance(t.ops[0], (ast.Is, ast.IsNot)) and isinstance(t.left, ast.Name) and isinstance(t.comparators[0], ast.Constant) and t.comparators[0].value is None:
+            v = _eval_under(t.left, defs, param, present, depth + 1)
+            isnone = True if (isinstance(v, ast.Constant) and v.value is None) else False if isinstance(v, ast.Call) else None
+            if isnone is not None:
+                truth = isnone == isinstance(t.ops[0], ast.Is)
+                return _eval_under(e.body if truth else e.orelse, defs, param, present, depth + 1)
         return e
     if isinstance(e, ast.Name) and e.id in defs and len(defs[e.id]) == 1 and not isinstance(defs[e.id][0], ast.AugAssign):
         return _eval_under(defs[e.id][0], defs, param, present, depth + 1)
@@ -492,6 +508,46 @@ def _always_forwarding(ctx, cls_name):
     return all(s.forwards == 1 for s in sums)
 
 
+def _test_truth(test, defs, param, present):
+    """True / False / None: the outcome of an `if` test under the assumption on the budget parameter"""
+    neg = False
+    while isinstance(test, ast.UnaryOp) and isinstance(test.op, ast.Not):
+        test, neg = test.operand, not neg
+    pol = _truth_of_maxfun_test(test, param)
+    if pol:
+        return ((pol == 1) == present) != neg
+    if isinstance(test, ast.Compare) and len(test.ops) == 1 and isinstance(test.ops[0], (ast.Is, ast.IsNot)) and isinstance(test.left, ast.Name) and isinstance(test.comparators[0], ast.Constant) and test.comparators[0].value is None:
+        v = _eval_under(test.left, defs, param, present)
+        isnone = True if (isinstance(v, ast.Constant) and v.value is None) else False if isinstance(v, ast.Call) else None
+        if isnone is not None:
+            return (isnone == isinstance(test.ops[0], ast.Is)) != neg
+    return None
+
+
+def _reachable_under(f, node, defs, param, present) -> bool:
+    """False when `node` sits in an arm of an `if` (or behind an `if ..: return`) that the assumption rules out"""
+    def find(block, guards):
+        for i, st in enumerate(block):
+            if any(x is node for x in ast.walk(st)):
+                if isinstance(st, ast.If) and not any(x is node for x in ast.walk(st.test)):
+                    inb = any(x is node for b_ in st.body for x in ast.walk(b_))
+                    return find(st.body if inb else st.orelse, guards + [(st.test, inb)])
+                for fld in ("body", "orelse", "finalbody"):
+                    sub = getattr(st, fld, None)
+                    if isinstance(sub, list) and any(x is node for b_ in sub for x in ast.walk(b_)):
+                        return find(sub, guards)
+                return guards
+            if isinstance(st, ast.If) and not st.orelse and st.body and isinstance(st.body[-1], (ast.Return, ast.Raise)):
+                guards = guards + [(st.test, False)]
+        return guards
+
+    for test, in_body in find(f.node.body, []):
+        tv = _test_truth(test, defs, param, present)
+        if tv is not None and tv != in_body:
+            return False
+    return True
+
+
 def r03_4(ctx: Ctx):
     """R03.4 minimize(): nfev is read from a counter that is exact for `fun` under each assumption on maxfun."""
     f = ctx.prog.func("pyhms.hms", "minimize")
@@ -519,6 +575,8 @@ def r03_4(ctx: Ctx):
         has_iter = "maxiter" in f.params()
         combos = [("maxfun given", True, False), ("maxfun absent (maxiter only)", False, True)] + ([("maxfun and maxiter given", True, True)] if has_iter else [])
         for label, present, iter_present in combos:
+            if len(res_calls) > 1 and not _reachable_under(f, call, defs, param, present):
+                continue  # this result is built on a branch the assumption rules out
             e = _eval_under(nfev, defs, param, present)
             if has_iter:
                 e = _eval_under(e, defs, "maxiter", iter_present)
@@ -580,6 +638,11 @@ def _nfev_exact(ctx, f, e, defs, param, present, level_problem_exprs):
     # every level must evaluate through this same object, otherwise calls bypass the counter
     for c, pe in level_problem_exprs:
         if norm(_eval_under(pe, defs, param, present)) != norm(_eval_under(base, defs, param, present)):
+            pst = _stack_of(ctx, f, pe, defs, param, present)
+            if pst is None:
+                return INCONCLUSIVE, f"cannot tell whether the level built by {norm(c.func)} evaluates through the object whose counter is read (`{norm(pe)[:60]}`)"
+            if pst == st:
+                return INCONCLUSIVE, f"the level built by {norm(c.func)} evaluates through `{norm(pe)[:60]}`, a stack of the same shape: cannot tell whether it is the same object"
             return VIOLATION, f"level built by {norm(c.func)} evaluates through `{norm(pe)}`, which bypasses the counter read for nfev"
     return OK, f"counter of {st[0]} directly above {'∘'.join(st[1:])}, shared by all levels"
 
